@@ -68,7 +68,7 @@ func ruleST1(c *Ctx) {
 			continue
 		}
 		for _, call := range callsIn(fn) {
-			cal := call.Common().StaticCallee()
+			cal := calleeOf(call.Common())
 			if cal == nil || len(call.Common().Args) == 0 {
 				continue
 			}
@@ -95,7 +95,7 @@ func ruleST1(c *Ctx) {
 	if lg := c.F.Anchors["loadGraph"]; lg != nil {
 		ok := false
 		for _, call := range callsIn(lg) {
-			if cal := call.Common().StaticCallee(); cal == c.F.Anchors["readEvents"] {
+			if cal := calleeOf(call.Common()); cal == c.F.Anchors["readEvents"] {
 				if d, isCh := c.chooserDir(call.Common().Args[0], env{}); isCh {
 					if _, isParam := resolve(d).(*ssa.Parameter); isParam {
 						ok = true
@@ -201,7 +201,7 @@ func (a *absState) compute(v ssa.Value, d int) bool {
 		if (n == "path/filepath.Abs" || n == "os.Getwd") && x.Index == 0 {
 			return true
 		}
-		if cal := cl.Call.StaticCallee(); cal != nil && c.InModule(cal) {
+		if cal := calleeOf(&cl.Call); cal != nil && c.InModule(cal) {
 			return a.returnsAbs(cal, x.Index, d)
 		}
 		return false
@@ -214,7 +214,7 @@ func (a *absState) compute(v ssa.Value, d int) bool {
 		case "path/filepath.Dir", "path/filepath.Clean":
 			return a.isAbs(x.Call.Args[0], d+1)
 		}
-		if cal := x.Call.StaticCallee(); cal != nil && c.InModule(cal) {
+		if cal := calleeOf(&x.Call); cal != nil && c.InModule(cal) {
 			return a.returnsAbs(cal, 0, d)
 		}
 		return false
@@ -533,7 +533,7 @@ func ruleDT3(c *Ctx) {
 						}
 					}
 					// the formatter itself must use both in every returned error
-					if cal := cl.Call.StaticCallee(); cal != nil && c.InModule(cal) && usesPath && usesLine {
+					if cal := calleeOf(&cl.Call); cal != nil && c.InModule(cal) && usesPath && usesLine {
 						all := true
 						for _, fr := range returnsOf(cal) {
 							fc, _ := callOf(fr.Results[0])
@@ -1341,7 +1341,7 @@ func hasGraphEffects(h *ssa.Function, rm *replayModel) bool {
 				if calleeFullName(&x.Call) == "builtin delete" {
 					found = true
 				}
-				if cal := x.Call.StaticCallee(); cal != nil && rm.handler[cal] && visit(cal) {
+				if cal := calleeOf(&x.Call); cal != nil && rm.handler[cal] && visit(cal) {
 					found = true
 				}
 			}
@@ -1490,7 +1490,7 @@ func ruleDT7(c *Ctx) {
 				if n == "builtin delete" {
 					report(x, "map-delete")
 				}
-				cal := x.Call.StaticCallee()
+				cal := calleeOf(&x.Call)
 				if cal != nil && cal == c.F.Anchors["applyTombstone"] {
 					report(x, "apply-tombstone")
 				} else if cal != nil && rm.handler[cal] && hasGraphEffects(cal, rm) {
